@@ -163,6 +163,25 @@ func (u *Unit) libModel(st *State, v ssa.Value, key string, callee *ssa.Function
 		h := u.heap(st, hn, hs)
 		u.setReg(st, v, sx("str_join", sx("select", h, sx("slc_arr", s)), sx("slc_off", s), sx("slc_len", s), a(1)))
 		return true
+	case "encoding/json.Unmarshal":
+		// json.Unmarshal(data, &x): x becomes an arbitrary value of its type (A-lib: decoding is not modelled)
+		target := unwrapIfc(c.Args[1])
+		pt, ok := types.Unalias(target.Type()).Underlying().(*types.Pointer)
+		if !ok {
+			unsupp("json.Unmarshal into non-pointer")
+		}
+		lv := u.lvOf(st, target)
+		fresh := u.s.fresh("unmarshalled", u.ty.sortOf(pt.Elem()))
+		u.s.assume(implies(st.reach, u.ty.rangeFact(fresh, pt.Elem(), u.alloc(st))))
+		u.store(st, lv, fresh)
+		errv := u.s.fresh("jsonerr", SIfc)
+		u.s.assume(implies(st.reach, implies(eq(sx("ifc_tag", errv), "0"), eq(sx("ifc_pay", errv), "0"))))
+		for _, sn := range u.sentinels {
+			u.s.assumeGlobal(sx("distinct", errv, sn.name))
+		}
+		st.regs[v] = errv
+		u.note("encoding/json.Unmarshal: the decoded value is arbitrary (decoding not modelled)")
+		return true
 	case "bytes.Equal":
 		x, y := a(0), a(1)
 		st.regs[v] = u.s.define("beq", SBool, or(eq(x, y), and(eq(sx("blen", x), "0"), eq(sx("blen", y), "0"))))
